@@ -193,10 +193,12 @@ def speed_of_sound(alt_m: float) -> float:
 # builders: JSON description -> AEIC objects
 
 
-def _tmv(values):
+def _tmv(values, mutable=False):
     from AEIC.performance.types import ThrustModeValues
 
-    return ThrustModeValues(*[float(v) for v in values])
+    t = ThrustModeValues(*[float(v) for v in values])
+    # mutable tables are what arithmetic on ThrustModeValues produces (e.g. `EI * 1.0`); same numbers
+    return t.copy(mutable=True) if mutable else t
 
 
 def build_fuel(d: dict):
@@ -219,10 +221,13 @@ def build_fuel(d: dict):
 def build_lto(d: dict):
     from AEIC.performance.types import LTOPerformance
 
+    # every other generated data set carries mutable tables (decided by the data itself, so replay is exact):
+    # the inventory of a flight must not depend on, or change, the engine data it was given
+    mut = int(round(d['ff'][0] * 1e6)) % 2 == 1
     return LTOPerformance(
         source='generated', ICAO_UID='GEN0001', rated_thrust=d.get('rated_thrust', 100.0) * 1000.0,
         thrust_pct=_tmv(d.get('thrust_pct', [7.0, 30.0, 85.0, 100.0])),
-        fuel_flow=_tmv(d['ff']), EI_NOx=_tmv(d['nox']), EI_HC=_tmv(d['hc']), EI_CO=_tmv(d['co']),
+        fuel_flow=_tmv(d['ff'], mut), EI_NOx=_tmv(d['nox'], mut), EI_HC=_tmv(d['hc'], mut), EI_CO=_tmv(d['co'], mut),
     )
 
 
